@@ -199,16 +199,51 @@ func runC06(e *emitter, tier string, seed uint64) {
 	for i := 0; i < n; i++ {
 		base = append(base, newTgen(r, 2+r.intn(3)).file())
 	}
-	for _, s := range base {
+	for i, s := range base {
 		doFile(s, "whole")
+		// the same file behind a byte order mark: positions are positions in the bytes handed in
+		if i%8 == 0 {
+			doFile("\ufeff"+s, "bom")
+		}
 	}
 	// truncations and structure-aware mutations
 	tokens := []string{"{", "}", "{{", "}}", "<", ">", "</", "/>", "\"", "'", "`", "@", "if ", "else", "for ", "switch ", "case ", "templ ", "css ", "script ", "<!--", "-->", "//", "/*", "*/",
 		"é", "日本", "\r\n", "\n", "\t", "{ children... }", "{!", "...", "=", "?=", "\xff", "\x00", "(", ")", "<script>", "</script>", "<style>", "func", "package ", "import \"",
 		"@func", "@func()", "@f(func(int) string(nil))", "@a.b(func() {})", "templ  X() {\n}\n", "css  c() {\n}\n", "script  s() {\n}\n", "templ\tY(a  string)  {\n}\n", "@x.y(", "{ f(", "{{ a :=", "`", "'\\''",
+		"} else if", "}else if", "} else", "else if", "} else if b", "} else {", "\n} else if", "case", "default:", "for", "if", "switch",
 		"script\thello(name string) {\n", "\nscript\t(", "\ncss\tc() {\n}\n", "\ntempl\tZ() {\n}\n", " ... }", "\n\t\t... }", "{ a ... }", "{ a\n... }"}
+	// deep nesting: parse time must stay proportional to the input (a block parsed once for the look-ahead and again
+	// for real doubles the work per level)
+	for _, d := range []int{12, 18, 24} {
+		for _, mid := range []string{"} else {\n", "} else if b {\n", "}\nfor _, item := range items {\n", "}\nswitch s {\ncase \"a\":\n", "<div>\n", "@wrap(s) {\n"} {
+			var sb strings.Builder
+			sb.WriteString(tgenPrelude + "templ T(" + tgenSig + ") {\n")
+			closers := 0
+			for i := 0; i < d; i++ {
+				switch {
+				case strings.HasPrefix(mid, "} else"):
+					sb.WriteString("if b {\n<b></b>\n" + mid)
+				case strings.HasPrefix(mid, "}\n"):
+					sb.WriteString("if b {\n<b></b>\n" + mid)
+				default:
+					sb.WriteString(mid)
+				}
+				closers++
+			}
+			sb.WriteString("<i></i>\n")
+			for i := 0; i < closers; i++ {
+				if mid == "<div>\n" {
+					sb.WriteString("</div>\n")
+				} else {
+					sb.WriteString("}\n")
+				}
+			}
+			sb.WriteString("}\n")
+			doFile(sb.String(), "nested")
+		}
+	}
 	// every token at the very end of a file, after a few fixed openings (deterministic: independent of the seed)
-	for _, pre := range []string{"package x\n\n", "package x\n\ntempl T() {\n\t", "package x\n\ntempl T() {\n\t<div>\n\t\t", "package x\n\ntempl T() {\n\t<div a={ s }", "package x\n\ntempl T() {\n\tif x {\n\t\t"} {
+	for _, pre := range []string{"package x\n\n", "package x\n\ntempl T() {\n\t", "package x\n\ntempl T() {\n\t<div>\n\t\t", "package x\n\ntempl T() {\n\t<div a={ s }", "package x\n\ntempl T() {\n\tif x {\n\t\t", "package x\n\ntempl T() {\n\tif x {\n\t\t<b></b>\n\t", "package x\n\ntempl T() {\n\t<p>\n\t\tif x {\n\t\t\ty\n\t\t"} {
 		for _, tk := range tokens {
 			doFile(pre+tk, "ended-by-token")
 		}
@@ -299,6 +334,39 @@ func runC07(e *emitter, tier string, seed uint64) {
 		k := "smadd " + strings.Join(enc, ";")
 		e.emit(k, "smadd", strings.Join(enc, ";"), dumpMap(sm.SourceLinesToTarget), dumpMap(sm.TargetLinesToSource))
 	}
+	// 1b. AddSymbolRange against the model: small coordinates, so that several symbols start on one line
+	rngS := func(g parser.Range) string { return posS(g.From) + "|" + posS(g.To) }
+	for i := 0; i < na/2; i++ {
+		sm := parser.NewSourceMap()
+		type ad struct{ src, tgt parser.Range }
+		var adds []ad
+		var enc []string
+		for k := 1 + r.intn(5); k > 0; k-- {
+			sl, sc := uint32(r.intn(3)), uint32(r.intn(4))
+			tl, tc := uint32(r.intn(5)), uint32(r.intn(3))
+			a := ad{
+				parser.Range{From: parser.NewPosition(int64(sl*10+sc), sl, sc), To: parser.NewPosition(int64(sl*10+sc+5), sl+1, 1)},
+				parser.Range{From: parser.NewPosition(int64(tl*100+tc), tl, tc), To: parser.NewPosition(int64(tl*100+tc+50), tl+3, 0)},
+			}
+			sm.AddSymbolRange(a.src, a.tgt)
+			adds = append(adds, a)
+			enc = append(enc, rngS(a.src)+"|"+rngS(a.tgt))
+		}
+		var res []string
+		for _, a := range adds {
+			t, ok1 := sm.SymbolTargetRangeFromSource(a.src.From.Line, a.src.From.Col)
+			sr, ok2 := sm.SymbolSourceRangeFromTarget(a.tgt.From.Line, a.tgt.From.Col)
+			x, y := "0", "0"
+			if ok1 {
+				x = rngS(t)
+			}
+			if ok2 {
+				y = rngS(sr)
+			}
+			res = append(res, x+"/"+y)
+		}
+		e.emit("symadd "+strings.Join(enc, ";"), "symadd", strings.Join(enc, ";"), strings.Join(res, ";"))
+	}
 	// 2. RangeWriter positions against `advance`
 	texts := []string{"a", "é", "x\ny", "\n", "日本\n語", "\t\tif x {\n", "", "😀😀", "a\r\nb"}
 	for i := 0; i < na/2; i++ {
@@ -314,7 +382,22 @@ func runC07(e *emitter, tier string, seed uint64) {
 		e.emit("rw "+strings.Join(ins, ";"), "rw", strings.Join(ins, ";"), strings.Join(outs, ";"), hx(buf.String()))
 	}
 	// 3. real templates: every expression of the tree against the real source map
+	// the generator's options decide what is written in front of the code (version, timestamp, "generated" comment):
+	// the map must hold under each of them
+	optSets := [][]generator.GenerateOpt{
+		{generator.WithFileName("x.templ")},
+		{generator.WithFileName("x.templ"), generator.WithTimestamp(time.Date(2024, 2, 29, 23, 59, 58, 0, time.UTC))},
+		{generator.WithFileName("x.templ"), generator.WithVersion("v0.0.0-verif")},
+		{generator.WithSkipCodeGeneratedComment()},
+		{generator.WithVersion("v9"), generator.WithTimestamp(time.Unix(0, 0)), generator.WithSkipCodeGeneratedComment(), generator.WithFileName("dir/y.templ")},
+	}
+	nFile := 0
 	doFile := func(src, origin string) {
+		nFile++
+		set := nFile % len(optSets)
+		if origin == "seed" || origin == "corpus" {
+			set = 0
+		}
 		if !e.mine("map " + src) {
 			return
 		}
@@ -323,7 +406,7 @@ func runC07(e *emitter, tier string, seed uint64) {
 			return
 		}
 		var buf bytes.Buffer
-		op, err := generator.Generate(tf, &buf, generator.WithFileName("x.templ"))
+		op, err := generator.Generate(tf, &buf, optSets[set]...)
 		if err != nil {
 			return
 		}
@@ -331,6 +414,48 @@ func runC07(e *emitter, tier string, seed uint64) {
 		var names []nameRef
 		walkTree(reflect.ValueOf(tf), "TemplateFile", &exprs, &names, 0)
 		e.emit("map "+src, "map", origin, hx(src), hx(buf.String()), encExprs(exprs), dumpMap(op.SourceMap.SourceLinesToTarget), dumpMap(op.SourceMap.TargetLinesToSource))
+		// symbol ranges of the top-level declarations
+		var syms []string
+		for _, n := range tf.Nodes {
+			kind, name, val := "", "", ""
+			var rg parser.Range
+			switch x := n.(type) {
+			case parser.HTMLTemplate:
+				kind, val, rg = "templ", x.Expression.Value, x.Range
+			case *parser.HTMLTemplate:
+				kind, val, rg = "templ", x.Expression.Value, x.Range
+			case parser.CSSTemplate:
+				kind, val, rg = "css", x.Expression.Value, x.Range
+			case *parser.CSSTemplate:
+				kind, val, rg = "css", x.Expression.Value, x.Range
+			case parser.ScriptTemplate:
+				kind, name, rg = "script", x.Name.Value, x.Range
+			case *parser.ScriptTemplate:
+				kind, name, rg = "script", x.Name.Value, x.Range
+			case parser.TemplateFileGoExpression:
+				kind, val, rg = "go", x.Expression.Value, x.Expression.Range
+			case *parser.TemplateFileGoExpression:
+				kind, val, rg = "go", x.Expression.Value, x.Expression.Range
+			default:
+				continue
+			}
+			if kind == "go" && strings.TrimSpace(val) == "" {
+				continue
+			}
+			t, ok1 := op.SourceMap.SymbolTargetRangeFromSource(rg.From.Line, rg.From.Col)
+			back := "0"
+			found := "0"
+			if ok1 {
+				found = posS(t.From) + "|" + posS(t.To)
+				if sr, ok2 := op.SourceMap.SymbolSourceRangeFromTarget(t.From.Line, t.From.Col); ok2 {
+					back = posS(sr.From) + "|" + posS(sr.To)
+				}
+			}
+			syms = append(syms, kind+"/"+hx(name)+"/"+hx(val)+"/"+posS(rg.From)+"|"+posS(rg.To)+"/"+found+"/"+back)
+		}
+		if len(syms) > 0 {
+			e.emit("syms "+src, "syms", origin, hx(src), hx(buf.String()), strings.Join(syms, ";"))
+		}
 	}
 	for _, f := range e.corpusLines() {
 		if len(f) >= 4 && f[0] == "C07" && f[1] == "map" {
@@ -342,6 +467,10 @@ func runC07(e *emitter, tier string, seed uint64) {
 	}
 	for _, s := range c06Seeds {
 		doFile(s, "seed")
+	}
+	for i := range optSets { // one fixed template under every option set
+		nFile = i - 1 + len(optSets)
+		doFile(tgenPrelude+"templ T("+tgenSig+") {\n\t<p title={ s }>{ t }</p>\n\tif b {\n\t\t{ fmt.Sprint(n + "+fmt.Sprint(i)+") }\n\t}\n}\n", "options")
 	}
 	for _, s := range repoTemplates() {
 		doFile(s, "repo")
